@@ -188,6 +188,7 @@ struct LeakScope
 };
 
 static double g_multiGoalProb = 0.4;
+static bool g_lastSwap = false;
 // changes the query of a world: new valid start/goal states drawn in the corner regions
 static void newQuery(World &w, Rng &rng)
 {
@@ -208,7 +209,10 @@ static void newQuery(World &w, Rng &rng)
         }
         return std::vector<double>();
     };
-    bool swap = rng.coin(0.3);
+    // in the reuse histories the start mostly changes corner from query to query: a goal state of the previous query then
+    // lies close to the new start (a planner that did not forget it would happily return it)
+    bool swap = g_multiGoalProb > 0.5 ? (rng.coin(0.75) ? !g_lastSwap : g_lastSwap) : rng.coin(0.3);
+    g_lastSwap = swap;
     w.starts = {draw(!swap)};
     w.goals = {draw(swap)};
     w.badStarts.clear();
@@ -221,7 +225,8 @@ static void newQuery(World &w, Rng &rng)
         int extra = 1 + (int)rng.ui(2);
         for (int i = 0; i < extra; ++i)
         {
-            auto g = draw(rng.coin() ? swap : !swap);
+            // reuse histories: the extra goal states are near the start, so the far one gets pruned once a solution exists
+            auto g = draw(g_multiGoalProb > 0.5 ? !swap : (rng.coin() ? swap : !swap));
             if (!g.empty() && g != w.starts[0]) w.goals.push_back(g);
         }
     }
@@ -239,8 +244,9 @@ static void c03History(Sink &sink, const Args &a, long c, const PInfo &pi, long 
     auto w = makeWorld(wseed, kind, false, 4);
     w->rangeMode = 0;
     Rng rng(caseSeed(a, c));
-    g_multiGoalProb = (hidx == 1 || hidx == 2) ? 0.8 : 0.4;
-    if (hidx % 3 == 1 || hidx == 2) newQuery(*w, rng);  // a third of the histories start with a (possibly multi-goal) drawn query
+    g_multiGoalProb = (hidx >= 1 && hidx <= 6) ? 0.8 : 0.4;
+    g_lastSwap = false;
+    if (hidx % 3 == 1 || (hidx >= 2 && hidx <= 6)) newQuery(*w, rng);  // a third of the histories start with a (possibly multi-goal) drawn query
     OracleCtx ctx{sink, *w, pi, "C03", "solution-", nullptr};
     OracleCtx hctx{sink, *w, pi, "C03", "", nullptr};
     std::string hist;
@@ -269,8 +275,9 @@ static void c03History(Sink &sink, const Args &a, long c, const PInfo &pi, long 
             //   1: solve, solve, [new query + clear(), solve, solve] x 3        2: solve, [clearQuery + new query, solve] x 3
             static const int H1[] = {0, 0, 6, 0, 0, 6, 0, 0, 6, 0, 0};
             static const int H2[] = {0, 3, 0, 3, 0, 3, 0};
-            const int *fixedOps = hidx == 1 ? H1 : hidx == 2 ? H2 : nullptr;
-            if (hidx == 1) len = 11;
+            const bool reuse1 = hidx == 1 || (hidx >= 3 && hidx <= 6);
+            const int *fixedOps = reuse1 ? H1 : hidx == 2 ? H2 : nullptr;
+            if (reuse1) len = 11;
             if (hidx == 2) len = 7;
             // after setProblemDefinition(new) without clear(): wrong end points of the next paths are symptoms of one root
             // cause (the planner did not forget the previous query) and share one key
